@@ -47,6 +47,7 @@ type ReportSite struct {
 	CodeVal ssa.Value
 	PosVal  ssa.Value
 	Fields  map[string]ssa.Value
+	Via     ssa.CallInstruction // when the code is a parameter of Fn: the call site that supplies this code
 }
 
 type Model struct {
@@ -232,7 +233,41 @@ func (P *Program) BuildModel() (*Model, error) {
 			M.Sites = append(M.Sites, rs)
 		})
 	}
-	sort.Slice(M.Sites, func(i, j int) bool { return M.Sites[i].Alloc.Pos() < M.Sites[j].Alloc.Pos() })
+	// a site whose code is a parameter of its function stands for one site per call site (merged sibling functions)
+	var expanded []*ReportSite
+	for _, rs := range M.Sites {
+		par, isPar := rs.CodeVal.(*ssa.Parameter)
+		if rs.Code != "" || !isPar || par.Parent() != rs.Fn {
+			expanded = append(expanded, rs)
+			continue
+		}
+		idx := -1
+		for i, q := range rs.Fn.Params {
+			if q == par {
+				idx = i
+			}
+		}
+		callers := P.Callers(rs.Fn)
+		if idx < 0 || len(callers) == 0 {
+			expanded = append(expanded, rs)
+			continue
+		}
+		for _, cs := range callers {
+			cp := *rs
+			cp.Via = cs
+			if idx < len(cs.Common().Args) {
+				for _, r := range P.Resolve(cs.Common().Args[idx]) {
+					if c := constString(r); c != "" {
+						cp.Code = c
+					}
+				}
+			}
+			c2 := cp
+			expanded = append(expanded, &c2)
+		}
+	}
+	M.Sites = expanded
+	sort.SliceStable(M.Sites, func(i, j int) bool { return M.Sites[i].Alloc.Pos() < M.Sites[j].Alloc.Pos() })
 	return M, nil
 }
 
